@@ -103,6 +103,18 @@ def facts(src, strip_comments, fn_body):
                          bool(re.search(r"\bself\.(set_value|incr_by|expire|ttl|exists)\(", body)),
         }
         res["fns"].append(f)
+    # a function that works through another storage function of the engine looks at `data` too (zcount -> zrangebyscore)
+    changed = True
+    while changed:
+        changed = False
+        by = {x["name"]: x for x in res["fns"]}
+        for x in res["fns"]:
+            if not x["readsData"]:
+                for callee in re.findall(r"\bself\.(\w+)\(", bodies.get(x["name"], "")):
+                    if callee in by and by[callee]["readsData"]:
+                        x["readsData"] = True
+                        changed = True
+                        break
     if not any(f["name"] == "get" and f["testsExpiry"] and f["reaps"] for f in res["fns"]):
         errors.append("`get` no longer tests and removes an expired entry (the anchor of the lazy-expiry heuristics)")
     # sweeper
